@@ -25,15 +25,20 @@ class FaultPolicy(object):
     the clock kinds).  ``active`` is switched off by heal()."""
 
     def __init__(self, rates=None, timeout=0.5, base_latency=0.0005,
-                 jitter=0.0005):
+                 jitter=0.0005, fifo_requests=False):
         self.rates = dict(rates or {})
         self.timeout = timeout
         self.base_latency = base_latency
         self.jitter = jitter
+        # fifo_requests: requests reach the machine in the order sent (constant
+        # latency), so that no stale copy of a request can execute after a
+        # later request - see DESIGN.md section 7 items 1 and 13
+        self.fifo_requests = fifo_requests
         self.active = True
 
     @classmethod
-    def draw(cls, tape, allowed, timeout, fault_free_one_in=4):
+    def draw(cls, tape, allowed, timeout, fault_free_one_in=4,
+             fifo_requests=False):
         """Swarm configuration: a random subset of the allowed kinds, each
         with its own rate; one configuration in ``fault_free_one_in`` has no
         faults at all."""
@@ -54,7 +59,8 @@ class FaultPolicy(object):
                 if kind in rates:
                     rates[kind] = min(rates[kind], 0.05) / 2.0
         jitter = tape.choice([0.0, 0.0005, 0.005])
-        return cls(rates, timeout=timeout, jitter=jitter)
+        return cls(rates, timeout=timeout, jitter=jitter,
+                   fifo_requests=fifo_requests)
 
     def rate(self, kind):
         return self.rates.get(kind, 0.0) if self.active else 0.0
@@ -86,7 +92,7 @@ class FaultPolicy(object):
 
     def request_fate(self, tape, world):
         """-> list of delivery delays (empty = lost)."""
-        lat = self._latency(tape)
+        lat = self.base_latency if self.fifo_requests else self._latency(tape)
         pl, pd, pu = (self.rate("req_loss"), self.rate("req_delay"),
                       self.rate("req_dup"))
         if pl + pd + pu <= 0:
